@@ -427,6 +427,18 @@ def selftest():
     # R13e
     b("KB last digits", "c/phonopy.c", "#define KB 8.6173382568083159E-05", "#define KB 8.6173382568083159E-06", "R13e", "KB")
     b("q zero tolerance differs", "c/dynmat.c", "q_zero_tolerance = 1e-5;", "q_zero_tolerance = 1e-4;", "R13e", "q_zero_tolerance")
+    # R13a
+    b("abi: int64 -> intc grid_address", "phonopy/phonon/dos.py", 'np.array(grid_address, dtype="int64", order="C")', 'np.array(grid_address, dtype="intc", order="C")', "R13a.dtype", "py_grid_address")
+    b("abi: swapped multi/masses at Python call", "phonopy/harmonic/dynmat_to_fc.py", "            self._multi,\n            self._pcell.masses,", "            self._pcell.masses,\n            self._multi,", "R13a.dtype", "py_multi")
+    b("abi: p2s_map allocated as intc", "phonopy/harmonic/dynamical_matrix.py", 'return np.arange(len(p2s_map), dtype="int64"), s2pp_map', 'return np.arange(len(p2s_map), dtype="intc"), s2pp_map', "R13a.dtype", "p2s")
+    b("abi: argument dropped at Python call", "phonopy/phonon/thermal_properties.py", "            self._cutoff_frequency,\n            self._classical,\n        )", "            self._cutoff_frequency,\n        )", "R13a.arity", "thermal_properties")
+    b("abi: glue swaps num_patom/num_satom", "c/_phonopy.cpp", "s2pp_map, fc_index_map, num_patom, num_satom,\n                                use_openmp);", "s2pp_map, fc_index_map, num_satom, num_patom,\n                                use_openmp);", "R13a.roles", "num_satom")
+    b("abi: kernel wrapper swaps s2p/p2s", "c/phonopy.c", "s2p_map, p2s_map, nac_factor, born,", "p2s_map, s2p_map, nac_factor, born,", "R13a.roles", "p2s_map")
+    b("abi: transposed view handed to kernel", "phonopy/structure/cells.py", '    lattice = np.array(lattice, dtype="double", order="C")\n', "", "R13a.dtype", "lattice")
+    b("abi: glue reads other axis", "c/_phonopy.cpp", "n_patom = py_force_constants.shape(0);\n    n_satom = py_force_constants.shape(1);\n\n    phpy_perm_trans", "n_patom = py_force_constants.shape(1);\n    n_satom = py_force_constants.shape(0);\n\n    phpy_perm_trans", "R13a.glue", "same axes")
+    n("abi: array built in a helper variable first", "phonopy/phonon/dos.py", '        np.array(grid_address, dtype="int64", order="C"),\n', '        _ga,\n', edits=[
+        dict(file="phonopy/phonon/dos.py", old='    phonoc.tetrahedron_method_dos(\n', new='    _ga = np.array(grid_address, dtype="int64", order="C")\n    phonoc.tetrahedron_method_dos(\n'),
+        dict(file="phonopy/phonon/dos.py", old='        np.array(grid_address, dtype="int64", order="C"),\n', new='        _ga,\n')])
     # R13f
     b("sparse predicate uses <= ", "c/phonopy.c", "if (length[k] - minimum < symprec) {", "if (length[k] - minimum <= symprec) {", "R13f", "selection predicate", nth=0)
     return V
